@@ -30,7 +30,7 @@ from ..selftest import Mutant
 from .c04 import proxy_fields
 
 PROP = "C03"
-TECHNIQUE = "static analysis: sync/async sibling differ over resolved callees + CFG barrier rules + truth-table evaluation of the dump-ownership condition + manager-proxy field taint + completion-order primitive scan + effect/taint rules for state shared by element tasks (partial-bound containers, process-global memos) + picklable-state rule for what PipeFunc keeps of the user function + sync/async parameter-forwarding agreement + stateless-read rule for shared storage objects (argument-dependent stores to self) + submitted callables vs _dump_single_output reachability + insertion-order kind for dict values + done-callback stores vs the generation barrier + one backing container per array + tables not keyed by __name__"
+TECHNIQUE = "static analysis: sync/async sibling differ over resolved callees + CFG barrier rules + truth-table evaluation of the dump-ownership condition + manager-proxy field taint + completion-order primitive scan + effect/taint rules for state shared by element tasks (partial-bound containers, process-global memos) + picklable-state rule for what PipeFunc keeps of the user function + sync/async parameter-forwarding agreement + stateless-read rule for shared storage objects (argument-dependent stores to self) + submitted callables vs _dump_single_output reachability + insertion-order kind for dict values + done-callback stores vs the generation barrier + one backing container per array + tables not keyed by __name__ + no-store-snapshot rule for storage objects (memoised listings / masks) + no lock/file/executor field on objects that cross the process boundary + fixpoint expansion of helpers that only one twin calls"
 RUN = "pipefunc.map._run"
 EXPLANATION = (
     "Static analysis of pipefunc/map/_run.py and the storage classes: a sibling differ over the sync/async driver "
